@@ -2,15 +2,16 @@
      src/tls.c    tls_send -> tls_encrypt_send (clamp at TLS_MAX_PLAINTEXT_SIZE = 2^14,
                   one record and one tls_seq_num_incr per call, *sentlen = bytes taken),
                   tls_recv (conn->data / conn->datalen buffering, one record pulled when empty)
-     src/tls13.c  tls13_send (no clamp: the whole buffer becomes one record written at
-                  conn->record + 5; DESIGN section 5 #22), tls13_recv / tls13_do_recv.
+     src/tls13.c  tls13_send (same clamp at 2^14 since commit c5b289c; before it the whole buffer
+                  became one record written at conn->record + 5: DESIGN section 5 #22),
+                  tls13_recv / tls13_do_recv.
    Record protection is abstracted to "the receiver obtains the payload the sender protected,
    in FIFO order" -- that is C11's round trip composed with the key agreement of KeySched.v.
 
-   [clamp]  Some 16384 for tls_send, None for tls13_send.
+   [clamp]  Some 16384 for tls_send and tls13_send (None described tls13_send before c5b289c).
    [cap]    largest write that stays inside conn->record (None: no limit is reachable because
-            of the clamp; Some 18415 for tls13_send: 5 + n + 1 + 16 <= 18437).  A larger write
-            is a memory fault in the C code; the model answers [Fault]. *)
+            of the clamp; Some 18415 described the unclamped tls13_send: 5 + n + 1 + 16 <= 18437).
+            A larger write is a memory fault in the C code; the model answers [Fault]. *)
 From GmVerif Require Import Base.ListX Base.Bytes.
 Local Open Scope nat_scope.
 
@@ -112,4 +113,6 @@ End Stream.
 Definition max_plain : nat := N.to_nat 16384.
 Definition cap13 : nat := N.to_nat 18415.
 Definition run12 := run (Some max_plain) None.
-Definition run13 := run None (Some cap13).
+Definition run13 := run (Some max_plain) None.
+(* tls13_send before commit c5b289c (no clamp), kept only for the Example in Tls/StreamProofs.v *)
+Definition run13_before_c5b289c := run None (Some cap13).
